@@ -44,7 +44,7 @@ fn parse_args() -> Args {
     let mut it = std::env::args().skip(1);
     while let Some(a) = it.next() {
         if let Some(k) = a.strip_prefix("--") {
-            if ["thorough", "no-confirm", "keep-going", "no-evidence"].contains(&k) {
+            if ["thorough", "no-confirm", "keep-going", "no-evidence", "reverse"].contains(&k) {
                 opts.insert(k.to_owned(), "1".to_owned());
             } else {
                 opts.insert(k.to_owned(), it.next().unwrap_or_default());
@@ -107,7 +107,10 @@ fn run_batch(
                         if run >= to {
                             break;
                         }
-                        *slot.lock().unwrap() = Some((run, Instant::now()));
+                        if kind != "process" {
+                            // (the process configuration runs child processes over many scenarios)
+                            *slot.lock().unwrap() = Some((run, Instant::now()));
+                        }
                         let mut sc = props::generate(prop, kind, seed, run, thorough);
                         let o = execute_isolated(&sc);
                         *slot.lock().unwrap() = None;
@@ -238,7 +241,8 @@ fn cmd_replay(a: &Args) -> i32 {
             let _ = tx.send(props::execute(&sc2));
         })
         .unwrap();
-    let o = match rx.recv_timeout(std::time::Duration::from_secs(HANG_LIMIT_S)) {
+    let limit = if sc.kind == "process" { 1800 } else { HANG_LIMIT_S };
+    let o = match rx.recv_timeout(std::time::Duration::from_secs(limit)) {
         Ok(o) => o,
         Err(_) => {
             println!("replay: property={} kind={} did not return within {} s", sc.property, sc.kind, HANG_LIMIT_S);
@@ -272,7 +276,17 @@ fn cmd_digest(a: &Args) -> i32 {
     let to: u64 = a.pos[4].parse().unwrap();
     let seed = a.opts.get("seed").and_then(|s| s.parse().ok()).unwrap_or(DEFAULT_SEED);
     let workers = a.opts.get("workers").and_then(|s| s.parse().ok()).unwrap_or(1);
-    let (rs, _) = run_batch(prop, kind, seed, from, to, a.opts.contains_key("thorough"), workers);
+    let thorough = a.opts.contains_key("thorough");
+    if a.opts.contains_key("reverse") {
+        // one scenario at a time, in descending order, in this process
+        for run in (from..to).rev() {
+            let sc = props::generate(prop, kind, seed, run, thorough);
+            let o = execute_isolated(&sc);
+            println!("{} {} {} {:016x} {}", prop, kind, run, o.digest, o.violations.len());
+        }
+        return 0;
+    }
+    let (rs, _) = run_batch(prop, kind, seed, from, to, thorough, workers);
     for r in rs {
         println!("{} {} {} {:016x} {}", prop, kind, r.run, r.digest, r.violations.len());
     }
@@ -466,19 +480,26 @@ fn cmd_check(a: &Args) -> i32 {
             println!("KNOWN-FINDING: property={} {} [{}] (observed {} times in this run)", prop, what, key, seen);
         }
     }
-    for (key, (v, sc, count)) in &found {
+    let mut pass = 0;
+    let mut found_pass: BTreeMap<String, (Violation, Scenario, u64)> = found.clone();
+    loop {
+    pass += 1;
+    for (key, (v, sc, count)) in &found_pass {
         if known.iter().any(|(s, k, _)| s == "known" && k == key) {
             continue;
         }
-        new_violations += 1;
+        if pass == 1 {
+            new_violations += 1;
+        }
         // minimise, then confirm from the replay file in a fresh process
         let size0 = sc.size();
         let key2 = key.clone();
         let still = move |c: &Scenario| execute_isolated(c).has(&key2);
         let sc2 = sc.clone();
+        let budget = if sc.kind == "process" { 0 } else if thorough { 4000 } else { 1500 };
         let (small, spent) = std::thread::Builder::new()
             .stack_size(STACK)
-            .spawn(move || shrink::shrink(&sc2, &still, if thorough { 4000 } else { 1500 }))
+            .spawn(move || shrink::shrink(&sc2, &still, budget))
             .unwrap()
             .join()
             .unwrap();
@@ -531,6 +552,46 @@ fn cmd_check(a: &Args) -> i32 {
             );
             unconfirmed += 1;
         }
+    }
+    if pass == 1 && exit == 0 && unconfirmed > 0 {
+        // Violations seen in the parallel batch that do not replay alone point at state shared
+        // between the worker threads of this process (a process-wide cache in the engine). Look
+        // for an instance that is caused by a scenario's own schedule: re-scan with ONE worker, so
+        // that nothing else runs in the process while a scenario executes.
+        println!("  re-scanning sequentially (1 worker) for a reproducible instance of the {} unconfirmed key(s)", unconfirmed);
+        let t_scan = Instant::now();
+        found_pass = BTreeMap::new();
+        'scan: for cfg in props::configs(&prop) {
+            if cfg.exhaustive {
+                continue;
+            }
+            let total = if thorough { cfg.thorough } else { cfg.quick };
+            let mut from = 0u64;
+            while from < total {
+                if t_scan.elapsed().as_secs() > 240 {
+                    break 'scan;
+                }
+                let to = (from + 100).min(total);
+                let (rs, _) = run_batch(&prop, cfg.kind, seed, from, to, thorough, 1);
+                for r in rs {
+                    for (v, sc) in r.violations {
+                        if !known.iter().any(|(s, k, _)| s == "known" && *k == v.key()) {
+                            found_pass.entry(v.key()).or_insert((v, sc, 1));
+                        }
+                    }
+                }
+                if found_pass.len() >= 3 {
+                    break 'scan;
+                }
+                from = to;
+            }
+        }
+        if !found_pass.is_empty() {
+            unconfirmed = 0;
+            continue;
+        }
+    }
+    break;
     }
     if exit == 0 && unconfirmed > 0 {
         exit = 2;
